@@ -1,6 +1,7 @@
 package checks
 
 import (
+	"crypto/sha512"
 	"encoding/binary"
 	"fmt"
 	"os"
@@ -26,12 +27,19 @@ const c18RtmrOff = world.HeaderLen + 16 + 48 + 48 + 8 + 8 + 8 + 48*4
 // of a TCG2 event log (own minimal parser: header event in TCG 1.2 form, then
 // pcrIndex u32, eventType u32, digestCount u32, {algId u16, digest}*, eventSize u32, event).
 func tcgDigestOffsets(log []byte) (offs []int, mrIdx []uint32) {
+	offs, mrIdx, _ = tcgScan(log)
+	return
+}
+
+// tcgScan is tcgDigestOffsets plus the offset at which the events end (padding starts).
+func tcgScan(log []byte) (offs []int, mrIdx []uint32, end int) {
 	if len(log) < 32 {
 		return
 	}
 	// first event: pcrIndex(4) type(4) sha1(20) size(4) data
 	sz := int(binary.LittleEndian.Uint32(log[28:32]))
 	p := 32 + sz
+	end = p
 	algLen := map[uint16]int{0x4: 20, 0xb: 32, 0xc: 48, 0xd: 64, 0x12: 32}
 	for p+12 <= len(log) {
 		idx := binary.LittleEndian.Uint32(log[p:])
@@ -61,8 +69,22 @@ func tcgDigestOffsets(log []byte) (offs []int, mrIdx []uint32) {
 		}
 		es := int(binary.LittleEndian.Uint32(log[q:]))
 		p = q + 4 + es
+		if p <= len(log) {
+			end = p
+		}
 	}
 	return
+}
+
+// tcgEvent2 encodes one crypto-agile event with a single SHA-384 digest.
+func tcgEvent2(mr, typ uint32, digest, data []byte) []byte {
+	b := binary.LittleEndian.AppendUint32(nil, mr)
+	b = binary.LittleEndian.AppendUint32(b, typ)
+	b = binary.LittleEndian.AppendUint32(b, 1)
+	b = binary.LittleEndian.AppendUint16(b, 0xc)
+	b = append(b, digest...)
+	b = binary.LittleEndian.AppendUint32(b, uint32(len(data)))
+	return append(b, data...)
 }
 
 func c18Run(r *core.Run) {
@@ -77,6 +99,20 @@ func c18Run(r *core.Run) {
 	w := world.NewWorld(t, world.Cfg{Processor: 1, AuthLen: 0, NoPCS: true})
 	for i := 0; i < 4; i++ {
 		copy(w.Quote.Rtmr[i][:], sample[c18RtmrOff+48*i:])
+	}
+	// In half of the runs the platform additionally measured a workload into RTMR3 at run time
+	// (as rtmr.ExtendEventLog does): one more event (CC measurement register 4) is appended to
+	// the log and the quote's RTMR3 is the corresponding extend value, so all four RTMRs are measured.
+	if t.Bool() {
+		_, _, end := tcgScan(ccel)
+		payload := append([]byte("workload measurement "), t.Bytes(24)...)
+		evd := sha512.Sum384(payload)
+		ext := append([]byte(nil), ccel[:end]...)
+		ext = append(ext, tcgEvent2(4, 6 /* EV_EVENT_TAG */, evd[:], payload)...)
+		ccel = append(ext, ccel[end:]...)
+		reg := sha512.Sum384(append(make([]byte, 48), evd[:]...))
+		w.Quote.Rtmr[3] = reg
+		r.Probe("log_extended_with_rtmr3_event")
 	}
 	w.Build(false)
 	r.Eventf("world %s", w.Describe())
@@ -265,6 +301,9 @@ func c18Run(r *core.Run) {
 			if measured[reg] {
 				judge(item, fmt.Sprintf("replay-mismatch:rtmr%d", reg), true, fmt.Sprintf("RTMR%d of the (validly signed) quote differs from the replay of the log in bit %d", reg, bit), st, o)
 				r.Probe("measured_rtmr_bitflip_resigned")
+				if reg == 3 {
+					r.Probe("rtmr3_measured_bitflip")
+				}
 			} else {
 				r.Eval()
 				r.Count(fmt.Sprintf("unmeasured_rtmr%d_flip_accepted=%v", reg, o.Accepted()), 1)
@@ -318,6 +357,6 @@ func init() {
 			return 8
 		},
 		Run:       c18Run,
-		MustProbe: []string{"honest_combination_returns_state", "measured_rtmr_bitflip_resigned", "log_digest_bitflip"},
+		MustProbe: []string{"honest_combination_returns_state", "measured_rtmr_bitflip_resigned", "log_digest_bitflip", "log_extended_with_rtmr3_event", "rtmr3_measured_bitflip"},
 	})
 }
